@@ -53,7 +53,7 @@ pub fn drive(tier: &str) -> i32 {
         run.capped = true;
     }
     let mut ev = Evidence::new("exploration");
-    ev.set("rule", "all strings up to length 4 (thorough: 5) over {a, B, blank} x all counts / positions in -1..7 for LEFT$, RIGHT$, MID$ (2 and 3 arguments), INSTR (2 and 3 arguments, non-empty needles up to length 2), UCASE$/LCASE$/LTRIM$/RTRIM$/LEN on every string (TAB as a non-blank), LEN(a+b), SPACE$(n), STRING$(n, 32 | \"xy\" | \"\"), VAL(STR$(k)) for k in -32768..32767 (quick: every 13th and the boundaries) and a LONG lattice; arguments as literals, as variables and nested in another call; every string up to length 3 (thorough 4) over {a, CHR$(200), CHR$(201)} with a character above 127 in it: lengths of LEFT$ / RIGHT$ / MID$ for every count and position, INSTR of the parts, the LEFT$ + MID$ equation (observed through numbers and comparisons only); the defining equations (LEFT$(s,n)+MID$(s,n+1)=s, SPACE$(n)=STRING$(n,32), LEN(a+b)=LEN(a)+LEN(b), VAL(STR$(k))=k) are evaluated by the implementation itself and printed. Snippets with a normal outcome are batched (bisected on disagreement), Illegal-function-call cases run alone. Every case is non-trivial (each names a distinct argument tuple).");
+    ev.set("rule", "all strings up to length 4 (thorough: 5) over {a, B, blank} x all counts / positions in -1..7 for LEFT$, RIGHT$, MID$ (2 and 3 arguments), INSTR (2 and 3 arguments, non-empty needles up to length 2), UCASE$/LCASE$/LTRIM$/RTRIM$/LEN on every string (TAB as a non-blank), LEN(a+b), SPACE$(n), STRING$(n, 32 | \"xy\" | \"\"), VAL(STR$(k)) for k in -32768..32767 (quick: every 13th and the boundaries) and a LONG lattice; arguments as literals, as variables and nested in another call; every string up to length 3 (thorough 4) over {a, CHR$(200), CHR$(201)} with a character above 127 in it: lengths of LEFT$ / RIGHT$ / MID$ for every count and position, INSTR of the parts, the LEFT$ + MID$ equation (observed through numbers and comparisons only); position-dependent printable-ASCII strings of 16 (thorough 28) lengths from 6 to 300 (1000) around powers of two and 255 / 256, counts and positions from a lattice {0, 1, 2, len/2, len-1, len, len+1, 255, 256, 1000, 32767} given as INTEGER literal and through LONG / SINGLE / DOUBLE variables (with a fraction that rounds down), observed through lengths, both ends, INSTR from the position and the equations, the case / trim functions on the whole string printed in pieces of 60, SPACE$ / STRING$ with counts up to 32767; the defining equations (LEFT$(s,n)+MID$(s,n+1)=s, SPACE$(n)=STRING$(n,32), LEN(a+b)=LEN(a)+LEN(b), VAL(STR$(k))=k) are evaluated by the implementation itself and printed. Snippets with a normal outcome are batched (bisected on disagreement), Illegal-function-call cases run alone. Every case is non-trivial (each names a distinct argument tuple).");
     ev.set("exhaustive", !run.capped);
     ev.set("snippets", total as u64);
     ev.assume("R8: 7-bit ASCII strings; INSTR with an empty needle is not judged (the property speaks of non-empty t)");
